@@ -74,13 +74,15 @@ def replay_edge(src, dst, mode):
     """apply one round of the implementation to the state of node src; compare with node dst"""
     n = len(src["style"])
     styles = [tuple(IDS[c - 1] for c in st) for st in src["style"]]
-    nums = [10 * (i + 1) for i in range(n)]  # card i+1 has the (i+1)-th smallest sample number
+    nums = [10 * i for i in range(n)]  # card i+1 has the (i+1)-th smallest sample number (the smallest is 0)
     cards = s4.make_cards(styles, nums)
     cons = s4.make_contests(IDS, {IDS[0]: dst["size"][0], IDS[1]: dst["size"][1]})
     for j, c in enumerate(IDS):
         t = src["thr"][j]
         cons[c].sample_threshold = None if t == 0 else nums[t - 1]
     prev = sorted(i - 1 for i in src["sampled"])
+    for i in prev:
+        cards[i].sampled = True
     try:
         if mode == "redraw":
             sel = CVR.consistent_sampling(cards, cons)
